@@ -282,13 +282,13 @@ func init() {
 	register(&PropDef{ID: "C14", Run: mixed(ProfC14), Clauses: set(clSpec, clContain, []string{"differs-from-untagged-variant"})})
 	register(&PropDef{ID: "C15", Run: mixed(ProfC15), Clauses: set(clLocals, clContain)})
 	register(&PropDef{ID: "C17", Clauses: set(clCapacity, clContain, clShared), Run: w2(&W2Opt{Prof: ProfC17, Methods: cat(allEngineMethods, []int{MPoolEM, MPoolEM, MPoolEMMulti}), MaxClients: 6, MaxReqs: 4,
-		FinalProbe: true, WaiterRound: true, NilTagPct: 40, Admins: 1, MaxMgmt: 3, MgmtKinds: []int{OpClear, OpClear, OpFull, OpIncr}, InvalidPct: 10, Restore: true, BigPools: true,
+		FinalProbe: true, WaiterRound: true, NilTagPct: 40, Admins: 1, MaxMgmt: 3, MgmtKinds: []int{OpClear, OpClear, OpFull, OpIncr}, InvalidPct: 10, Restore: true, BigPools: true, Flood: true,
 		Oracle: OracleC17})})
 	register(&PropDef{ID: "C06", Clauses: set(clIsolation, clContain), Run: w2(&W2Opt{Prof: ProfC06, Methods: cat(allEngineMethods, []int{MPoolEM, MPoolEMMulti, MPoolSelEM}), MaxClients: 5, MaxReqs: 5,
 		OptPct: 50, Prelude: true, Oracle: OracleC06})})
 	register(&PropDef{ID: "C07", Clauses: set(clVersions, clContain), Run: w2(&W2Opt{Prof: ProfC07, Methods: cat(allEngineMethods, []int{MPoolEMMulti, MPoolSelEM, MPoolEM, MPoolEM}), MaxClients: 4, MaxReqs: 4,
 		Admins: 2, MaxMgmt: 3, MgmtKinds: []int{OpFull, OpIncr, OpIncr, OpRemove}, InvalidPct: 15, UpdFromRule: true, Oracle: OracleC07})})
-	register(&PropDef{ID: "C16", Clauses: set(clPoolMgmt, clSpec, clContain), Run: func(plan, sched *simrt.Source, trace bool) *RunOut {
+	register(&PropDef{ID: "C16", Clauses: set(clPoolMgmt, clSpec, clContain, []string{"result-map"}), Run: func(plan, sched *simrt.Source, trace bool) *RunOut {
 		return RunW2Scripted(ProfC16, plan, sched, trace)
 	}})
 	register(&PropDef{ID: "C10", Clauses: set(clCompile, clContain), Run: RunW3Compile})
